@@ -145,6 +145,16 @@ def hPartitionsDivs : Handler := handler fun args =>
   | [d, sel] => do pure (okOr ((Divs.partitionsDivs (← d.toNats?) (← sel.toNats?)).map SExp.ofNats))
   | _ => none
 
+/-- `(concat-divs d1 d2)` ↦ `(mono (divisions…))` | `(not-mono)`: `Concat._divisions` of two frames with known divisions -/
+def hConcatDivs : Handler := handler fun args =>
+  match args with
+  | [d1, d2] => do
+    let d1 ← d1.toNats?
+    let d2 ← d2.toNats?
+    pure (if Divs.concatMonotonic d1 d2 then .list [.sym "mono", SExp.ofNats (Divs.concatMonoDivs d1 d2)]
+          else .list [.sym "not-mono"])
+  | _ => none
+
 /-! ## C40 -/
 def hStageIndex : Handler := handler fun args =>
   match args with
@@ -261,7 +271,7 @@ def hCsvParts : Handler := handler fun args =>
 def table : List (String × Handler) := [("sdl", hSdl), ("sdl-stats", hSdlStats), ("groupby", hGroupby), ("csv-parts", hCsvParts), ("join", hJoin), ("hash-join", hHashJoin),
   ("stage-index", hStageIndex), ("simple-shuffle", hSimpleShuffle), ("task-shuffle", hTaskShuffle),
   ("layer-wiring", hLayerWiring), ("set-partitions-pre", hSetPartitionsPre),
-  ("truthful", hTruthful), ("locslice-divs", hLocSliceDivs), ("partitions-divs", hPartitionsDivs),
+  ("truthful", hTruthful), ("locslice-divs", hLocSliceDivs), ("partitions-divs", hPartitionsDivs), ("concat-divs", hConcatDivs),
   ("tofewer-bounds", hToFewerBounds), ("split-positions", hSplitPositions), ("nsplits", hNsplits),
   ("lower-kind", hLowerKind), ("div-layer", hDivLayer), ("div-layer-ok", hDivLayerOK), ("repart-divs", hRepartDivs),
   ("tofewer", hToFewer), ("tomore", hToMore)]
